@@ -1,7 +1,8 @@
 #!/bin/sh
 # Preview command used by the C20 check.  usage: preview.sh <tag> <n> <q> <current> [<selected>...]
 # Appends a start record to $VERIF_PREVIEW_LOG, prints a nonce and its arguments, then behaves
-# according to n mod 4: 0 exit at once, 1 finish after 0.25 s, 2 never end, 3 print incrementally.
+# according to n mod 4: 0 exit at once, 1 finish after 0.25 s (last line without a newline),
+# 2 never end (every other item: after closing its own stdout and stderr), 3 print incrementally.
 tag="$1"; n="$2"; q="$3"; cur="$4"; shift 4
 nonce="$(od -An -N4 -tx4 /dev/urandom | tr -d ' ')"
 sel=""
@@ -12,7 +13,9 @@ echo "N=$n Q=$q"
 case "$n" in ''|*[!0-9]*) exit 0;; esac
 case $((n % 4)) in
   0) exit 0 ;;
-  1) sleep 0.25; echo DONE ;;
-  2) echo RUNNING; exec sleep 1000.5 ;;
+  1) sleep 0.25; printf DONE ;;
+  2) echo RUNNING
+     if [ $(((n / 4) % 2)) -eq 1 ]; then exec sleep 1000.5 >/dev/null 2>&1; fi
+     exec sleep 1000.5 ;;
   3) for i in 1 2 3 4 5; do echo "chunk $i"; sleep 0.1; done ;;
 esac
